@@ -450,6 +450,34 @@ pub fn enumerate_items(max_nodes: usize, leaves: &[Item], container_widths: &[u8
     by_size
 }
 
+/// Random item, biased towards the things the configurations treat differently:
+/// half floats, indefinite strings, indefinite containers inside definite ones.
+pub fn gen_hot_item(rng: &mut Rng, depth: usize) -> Item {
+    let leaf = |rng: &mut Rng| match rng.below(9) {
+        0 => Item::F16(rng.next_u32() as u16),
+        1 => Item::F16(*rng.pick(&[0x0000u16, 0x3c00, 0x7c00, 0xfc00, 0x7e00, 0x0001, 0x7bff, 0x8000])),
+        2 => Item::F32(gen_f32_bits(rng)),
+        3 => Item::TextIndef((0..rng.below(3)).map(|_| { let n = rng.below(4) as usize; let s = gen_string_len(rng, n); (min_width(s.len() as u64), s.into_bytes()) }).collect()),
+        4 => Item::BytesIndef((0..rng.below(3)).map(|_| { let n = rng.below(4) as usize; (min_width(n as u64), rng.bytes(n)) }).collect()),
+        5 => Item::uint(gen_u64(rng)),
+        6 => Item::text(&gen_string(rng, false)),
+        7 => Item::null(),
+        _ => Item::int(gen_cbor_int(rng)),
+    };
+    if depth == 0 || rng.chance(2, 5) {
+        return leaf(rng);
+    }
+    let n = rng.below(4) as usize;
+    match rng.below(5) {
+        0 => Item::array((0..n).map(|_| gen_hot_item(rng, depth - 1)).collect()),
+        1 => Item::array_indef((0..n).map(|_| gen_hot_item(rng, depth - 1)).collect()),
+        2 => Item::map((0..n).map(|_| (Item::uint(rng.below(12)), gen_hot_item(rng, depth - 1))).collect()),
+        3 => Item::map_indef((0..n).map(|_| (gen_hot_item(rng, 0), gen_hot_item(rng, depth - 1))).collect()),
+        _ => Item::tag(rng.below(30), gen_hot_item(rng, depth - 1)),
+    }
+}
+
+
 // ---------------------------------------------------------------------------
 // re-framing (same data-model value, different serialisation)
 
